@@ -345,6 +345,11 @@ func c08R4(c *Ctx) {
 			c.violated("R4", key, p.InstrPos(mu), "a parameter is bound to a cell that is not freshly created by NewCell: the callee could rebind the caller's cell")
 			return
 		}
+		// the cell is created in the same iteration as the binding (one cell per parameter)
+		if !(call.Block() == mu.Block() || reachableFrom(call.Block().Succs, nil)[call.Block()] && call.Block().Dominates(mu.Block()) && inSameLoop(call.Block(), mu.Block())) {
+			c.violated("R4", key+" per-parameter", p.InstrPos(call), "the cell bound to the parameter is created outside the parameter loop: every parameter that takes this arm shares one cell, so assigning to one missing parameter changes the others")
+			return
+		}
 		// key must be the ranged parameter name
 		arg := call.Call.Args[0]
 		// either NewValue(nil) or *args[index]
@@ -425,4 +430,9 @@ func isLenMinusOne(v ssa.Value) bool {
 	}
 	bi, ok := call.Call.Value.(*ssa.Builtin)
 	return ok && bi.Name() == "len"
+}
+
+// inSameLoop: a and b lie on a common cycle (b can reach a again).
+func inSameLoop(a, b *ssa.BasicBlock) bool {
+	return reachableFrom(b.Succs, nil)[a]
 }
